@@ -63,7 +63,8 @@ class Check:
             return False
         n = self._seen_keys.get(key, 0)
         self._seen_keys[key] = n + 1
-        if len(self.violations) >= self.max_reports or n >= 5:
+        # the first witness of every distinct key is always kept (up to 300 keys); further ones are limited
+        if (n > 0 and len(self.violations) >= self.max_reports) or n >= 5 or len(self._seen_keys) > 300:
             self.count("violations_suppressed_duplicates")
             self.violations.append((key, None))
             return True
@@ -103,6 +104,7 @@ class Check:
             "inconclusive": len(self.inconclusive),
             "inconclusive_samples": self.inconclusive[:5],
             "counters": self.counters,
+            "violation_keys": dict(sorted(self._seen_keys.items())),
         }
         if exhaustive is not None:
             cov["exhaustive"] = bool(exhaustive)
